@@ -264,7 +264,8 @@ def projects(draw, size_bias=None, max_tags=10, long_names=False):
     for k in range(draw(st.sampled_from([0, 0, 1, 2]))):
         mod = draw(st.sampled_from(["Local", "Rack_A", "ENBT", "HeatMap", "LineCxn", "IOMap"]))   # module names are ordinary identifiers
         form = draw(st.sampled_from(["%s:%s", "%s:%d:%s"]))
-        letter = draw(st.sampled_from(["I", "O", "C", "S"]))
+        # connection of the module: input / output / configuration / status, numbered (I1, O2) and the safety pair SI / SO
+        letter = draw(st.sampled_from(["I", "O", "C", "S", "I", "O", "I1", "O1", "I2", "SI", "SO"]))
         name = form % ((mod, letter) if form.count("%") == 2 else (mod, draw(st.integers(0, 16)), letter))
         if name.lower() in tag_names[None]:
             continue
